@@ -12,7 +12,7 @@
    have swapped the pointer -- and every read through it must be the specification's overlay on
    the (static) canonical chain.  A view that mixes two chains, has a gap, does not start at
    `asked`, or changed after the fact has no such explanation. *)
-EXTENDS MCPreConfirmed, Json, SequencesExt
+EXTENDS MCPreConfirmed, Json
 
 Trace == ndJsonDeserialize("trace.ndjson")
 
@@ -21,7 +21,8 @@ tvars == <<vars, l, pub>>
 
 StaticCanon == [i \in 1..MaxHead |-> 1]
 
-AsSlot(e) == [num |-> e.num, id |-> e.id, txs |-> e.txs, cls |-> ToSet(e.cls)]
+SeqToSet(q) == {q[i] : i \in 1..Len(q)}
+AsSlot(e) == [num |-> e.num, id |-> e.id, txs |-> e.txs, cls |-> SeqToSet(e.cls)]
 AsSlots(es) == [i \in 1..Len(es) |-> AsSlot(es[i])]
 SameSlots(a, b) == Len(a) = Len(b) /\ \A i \in 1..Len(a) : a[i] = b[i]
 
@@ -45,7 +46,7 @@ TraceW ==
      /\ e.k = Len(pub)
      /\ IF e.a.name = "ApplyUpdate"
         THEN ApplyCall([kind |-> e.a.u.kind, id |-> e.a.u.id, txs |-> e.a.u.txs], e.a.num, e.a.base,
-                       e.a.oldest, ToSet(e.a.cls), AllTags)
+                       e.a.oldest, SeqToSet(e.a.cls), AllTags)
         ELSE e.a.name = "AdvanceTo" /\ AdvanceTo(e.a.o)
      /\ res'.st = e.st /\ res'.tag = e.tag
      /\ SameSlots(chain', AsSlots(e.chain))
